@@ -58,6 +58,8 @@ class C09(Prop):
             rp = {"driver": "TestVerifC09 (real forwardRequest + handler chain; backend records headers)", "config": {k: r[k] for k in ("fwd", "strip", "shim", "sessions", "websocket")},
                   "asserted_user": r["user"], "client_fields": r["fields"], "backend_saw": {"X-Inverting-Proxy-User-ID": r["uid"], "Authorization": r["auth"]}}
             kind = "websocket" if r["websocket"] else "http"
+            if not r["reached_backend"] and r.get("userinfo"):
+                continue  # a target URL with userinfo is refused by the websocket dialer: nothing is forwarded
             if not r["reached_backend"]:
                 res.append(("request-did-not-reach-backend:" + kind, "the request never reached the backend", rp))
                 continue
